@@ -143,7 +143,7 @@ func (dist *GParetoDistribution) LogCdf(r Scalar, x ConstScalar) error {
       return nil
     }
   }
-  r.Sub(r, dist.Mu)
+  r.Sub(x, dist.Mu)
   r.Div(r, dist.Sigma)
 
   if dist.Xi.GetFloat64() == 0.0 {
